@@ -56,16 +56,10 @@ impl State {
         }
 
         res.append(&mut self.newlines);
-        res.push(Lex::new(self.pos, token.clone()));
-
-        // TODO streamline application logic for multiline strings
+        let lex = Lex::new(self.pos, token);
         self.cur_indent = self.line_indent;
-        self.pos = self.pos.offset_pos(token.clone().width());
-        if let Token::Str(_str, _) = &token {
-            self.pos = self.pos.offset_line(_str.matches('\n').count());
-        } else if let Token::DocStr(_str) = &token {
-            self.pos = self.pos.offset_line(_str.matches('\n').count());
-        }
+        self.pos = lex.pos.end;
+        res.push(lex);
 
         res
     }
